@@ -10,7 +10,9 @@ from .hlib import MISSING, copy_tree, plain
 
 
 class Prog:
-    def __init__(self, fam, which, relation, op1, op2, ctx=None, tkind1=None, tkind2=None):
+    def __init__(self, fam, which, relation, op1, op2, ctx=None, tkind1=None, tkind2=None, outcome_keys=None, ignore_values=()):
+        self.outcome_keys = outcome_keys  # compare only these parts of the outcome (None: all)
+        self.ignore_values = tuple(ignore_values)  # thread numbers whose returned VALUE is not compared (exceptions still are)
         self.fam = fam
         self.which = which
         self.relation = relation  # same | two | nested-same | nested-two | two-files
@@ -69,6 +71,10 @@ class World:
     def call(self, n):
         target, kind = self.t[n]
         name = (self.prog.op1 if n == 1 else self.prog.op2)
+        if name == "exit_ctx":
+            # this thread leaves the backend-wide buffered context while the other one works
+            self.exit_ctx()
+            return None
         if name == "filename_set":
             target.filename = target.filename + "_moved"
             return None
@@ -87,13 +93,35 @@ class World:
     def enter_ctx(self):
         if self.prog.ctx:
             cls = self.prog.fam.cls(self.prog.which)
-            self.ctx = cls.buffer_backend(self.prog.ctx[1]) if self.prog.ctx[1] is not None else cls.buffer_backend()
+            cap = self.prog.ctx[1]
+            self._cap0 = None
+            if cap == "tight":
+                # default capacity, then the second thread's object is modified and the capacity
+                # is set to exactly what the buffer holds: whatever enters the buffer next
+                # (a read of another file, a further modification) forces a flush
+                self.ctx = cls.buffer_backend()
+                self.ctx.__enter__()
+                target, kind = self.t[2]
+                if kind == "dict":
+                    target["pre"] = 0
+                else:
+                    target.append(0)
+                self._cap0 = cls.get_buffer_capacity()
+                cls.set_buffer_capacity(cls.get_current_buffer_size())
+                return
+            self.ctx = cls.buffer_backend(cap) if cap is not None else cls.buffer_backend()
             self.ctx.__enter__()
 
     def exit_ctx(self):
         if self.ctx is not None:
             c, self.ctx = self.ctx, None
-            c.__exit__(None, None, None)
+            try:
+                c.__exit__(None, None, None)
+            finally:
+                if getattr(self, "_cap0", None) is not None:
+                    cls = self.prog.fam.cls(self.prog.which)
+                    cap0, self._cap0 = self._cap0, None
+                    cls.set_buffer_capacity(cap0)
 
     def outcome(self, r1, r2):
         def conv(r):
@@ -105,6 +133,10 @@ class World:
                 return ("ok", f"<unconvertible {type(e).__name__}>")
 
         r1, r2 = conv(r1), conv(r2)
+        if 1 in self.prog.ignore_values and r1 is not None and r1[0] == "ok":
+            r1 = ("ok", "<not compared>")
+        if 2 in self.prog.ignore_values and r2 is not None and r2[0] == "ok":
+            r2 = ("ok", "<not compared>")
         self.exit_err = None
         try:
             self.exit_ctx()
@@ -121,7 +153,10 @@ class World:
         cls = self.prog.fam.cls(self.prog.which)
         if hasattr(cls, "get_current_buffer_size"):
             size = cls.get_current_buffer_size()
-        return json.dumps({"r1": r1, "r2": r2, "files": files, "reads": reads, "exit": self.exit_err, "size": size}, sort_keys=True, default=repr)
+        full = {"r1": r1, "r2": r2, "files": files, "reads": reads, "exit": self.exit_err, "size": size, "leaked_locks": order_smt.leaked_locks()}
+        if self.prog.outcome_keys:
+            full = {k: v for k, v in full.items() if k in self.prog.outcome_keys}
+        return json.dumps(full, sort_keys=True, default=repr)
 
 
 def _safe(fn):
